@@ -66,10 +66,24 @@ let res_name = function
 let buf_case a =
   let ty = List.nth a 0 and pool = int_of_string (List.nth a 1) in
   let (width, l) = elt_info ty in
-  let ops = List.map (parse_bop width) (split_on ';' (List.nth a 2)) in
+  (* `swap,a,b` (using std::swap; swap(x, y) — the generic three-move exchange unless the library provides its own) is
+     a macro: move-construct a temporary from a, a = move(b), b = move(temporary), destroy the temporary; only the state
+     after the whole exchange is observed *)
+  let raw = split_on ';' (List.nth a 2) in
+  let expanded = List.concat_map (fun r ->
+    match split_on ',' r with
+    | ["swap"; x; y] ->
+        let x = nat_of_int (int_of_string x) and y = nat_of_int (int_of_string y) and t = nat_of_int pool in
+        if x = y then [(BMove (t, x), false); (BMasg (x, t), false); (BDel t, true)]
+        else [(BMove (t, x), false); (BMasg (x, y), false); (BMasg (y, t), false); (BDel t, true)]
+    | _ -> [(parse_bop width r, true)]) raw in
+  let ops = List.map fst expanded and keep = List.map snd expanded in
   let fail = parse_fail a in
   let lnat = nat_of_int l and pnat = nat_of_int pool in
   let (steps, stf) = run_scheduled (fun st o -> run_history lnat o pnat st) with_fail store0 ops fail in
+  let rec filt xs ks = match xs, ks with x :: xt, k :: kt -> if k then x :: filt xt kt else filt xt kt | xs, [] -> xs | [], _ -> [] in
+  let died_early = List.exists (fun s -> match s.s_result with Abort _ | Fault _ -> true | _ -> false) steps in
+  let steps = if died_early then steps else filt steps keep in
   (* model line *)
   let died = List.find_opt (fun s -> match s.s_result with Abort _ | Fault _ -> true | _ -> false) steps in
   let m =
@@ -83,7 +97,7 @@ let buf_case a =
          | Ok n -> "OK " ^ body ^ "|leak=" ^ string_of_nat n
          | o -> res_name o) in
   (* spec line: values only; '?' for a moved-from object (any valid value) *)
-  let sstates = spec_history ops sstore0 in
+  let sstates = filt (spec_history ops sstore0) keep in
   let pr_s st =
     String.concat "" (List.init pool (fun i ->
       match st (nat_of_int i) with
